@@ -126,6 +126,11 @@ class Tr(object):
             if f == 'abs' and len(e.args) == 1:
                 return '(%s %s)' % ('Z.abs' if self.zmode else 'qabs', self.expr(e.args[0], env))
             raise Unsupported('call %s' % txt)
+        if isinstance(e, ast.Subscript):
+            key = 'sub:' + ast.unparse(e.value)
+            if key in self.calls:
+                return self.calls[key](e, env, self)
+            raise Unsupported('subscript %s' % txt)
         if isinstance(e, ast.Tuple):
             return '(%s)' % ', '.join(self.expr(x, env) for x in e.elts)
         raise Unsupported('expression %s' % txt[:80])
